@@ -186,6 +186,22 @@ class Judge:
         self.mono = all(x.monotone_continuous() for x in self.refs)
         self.has_flat = any(s.num is not None and s.n1 == 0 for s in self.ref.scales)
         self.limit_tie = self._limit_tie()
+        # mechanism tag for the clauses about the physical -> internal direction of (SCALE-)LINEAR:
+        # odxtools derives the limits of the physical value from the (rounded) images of the
+        # internal limits, which is inexact next to OPEN limits and for slopes below one with an
+        # integer physical type. Deviations under that condition are one known mechanism, the
+        # same deviation without it is a different one.
+        self.limit_rounding = "plain"
+        if self.cat in ("LINEAR", "SCALE-LINEAR"):
+            try:
+                open_lim = any(l.finite and l.kind == "OPEN" for sc in self.ref.scales
+                               for l in (sc.lo, sc.hi))
+                low_slope = self.ref.int_physical and any(
+                    sc.num is not None and sc.n1 != 0 and abs(sc.slope) < 1 for sc in self.ref.scales)
+                if (open_lim and (self.ref.int_physical or self.ref.int_internal)) or low_slope:
+                    self.limit_rounding = "limits-derived-from-rounded-images"
+            except Exception:
+                pass
         self.limit_images: List[float] = []
         if self.cat in ("LINEAR", "SCALE-LINEAR") and not self.ref.int_physical:
             for sc in self.ref.scales:
@@ -364,8 +380,11 @@ class Judge:
             vp = False
         elif st == "odxerror":
             vp = False
+        # a SCALE-LINEAR method is invertible by the ODX rule only if it is monotone and
+        # continuous - that is also the clause the statement spells out for it
         identity_claim = origin is not None and self.injective and not origin_tie and \
-            not self.limit_tie and not self._near_limit_image(p)
+            not self.limit_tie and not self._near_limit_image(p) and \
+            (self.cat != "SCALE-LINEAR" or self.mono)
         agree, (kind, exact) = self._agree(lambda ref: ref.p2i_exact(p))
         if identity_claim and not self.ref.int_physical and not isinstance(p, str):
             # the double nearest to the exact image may coincide with the image of an excluded
@@ -404,7 +423,7 @@ class Judge:
             image_rejected = identity_claim and not vp  # reported above already
             if mono_claim:
                 col.count("monotone-encode-attempts")
-                self.bad(("cannot-encode-monotone", self.cat, self.tp),
+                self.bad(("cannot-encode-monotone", self.cat, self.tp, self.limit_rounding),
                          "convert_physical_to_internal", p, problem=repr(c),
                          origin_internal=origin)
             elif vp:
@@ -433,7 +452,8 @@ class Judge:
                     # rounds to p is a correct encoding
                     ok = self._encodes(c, p)
             if not ok:
-                self.bad(("p2i-wrong", self.cat, self.tp), "convert_physical_to_internal", p,
+                self.bad(("p2i-wrong", self.cat, self.tp) + ((self.limit_rounding,) if self.cat in
+                         ("LINEAR", "SCALE-LINEAR") else ()), "convert_physical_to_internal", p,
                          expected=str(exact), observed=c, origin_internal=origin)
                 return
         if identity_claim:
